@@ -50,6 +50,7 @@ func init() {
 	}
 	controlTable["ord-maprange-escape"] = ordCtl("OrdMapRangeEscape", true)
 	controlTable["ord-mapkeys-concat"] = ordCtl("OrdMapKeysConcat", true)
+	controlTable["ord-firstwins"] = ordCtl("OrdFirstWins", true)
 	controlTable["ord-clean"] = ordCtl("OrdClean", false)
 }
 
